@@ -399,6 +399,27 @@ def render_fn(fn, recipe, log):
     return f"{sig}\n{spec.rstrip()}\n{body}\n"
 
 
+def outline_block(fn, spec, log):
+    """Return a synthetic fn dict whose body is the block opened by the `{` that ends the match of
+    spec['start'] inside fn's body (text copied verbatim) and whose signature is spec['sig']."""
+    body = fn["body"]
+    if not spec.get("start"):
+        # the whole function body is the block (the first statement acquires the guard)
+        log["rewrites"].append(f"block outlining: the body of fn {spec.get('of', '')} copied verbatim into fn {spec['name']} with its free "
+                               f"variables as parameters ({spec.get('why', '')})")
+        return dict(sig_start=fn["sig_start"], body_open=0, body_close=0, sig=spec["sig"], body=body)
+    m = _anchor(body, spec["start"], spec.get("occ"), "block")
+    o = m.end() - 1
+    if body[o] != "{":
+        raise ExtractError("block: start pattern must end at the opening brace")
+    c = match_brace(body, o)
+    text = body[o:c + 1]
+    log["rewrites"].append(f"block outlining: the block opened by `{m.group(0).strip()[:70]}` of fn {spec.get('of', '')} "
+                           f"({len(text.splitlines())} lines) copied verbatim into fn {spec['name']}; its free variables became parameters "
+                           f"({spec.get('why', '')})")
+    return dict(sig_start=fn["sig_start"], body_open=0, body_close=0, sig=spec["sig"], body=text)
+
+
 def annotate_closure(body, c, log):
     """Closure annotation (specification only, plus parameter-pattern desugaring):
         |PAT| BODY     ->   |NAME: TY| -> (ret: RET) ensures ENS { PRELUDE BODY }
